@@ -259,10 +259,19 @@ func (g *gen) inlineSeq(n int, depth int, inLink bool, lineBreaks bool) []*inl {
 				out = append(out, g.word())
 				break
 			}
-			if g.r.Bool() {
+			switch g.r.Intn(4) {
+			case 0:
 				out = append(out, &inl{k: iAutolink, s: "http://example.com/" + words[g.r.Intn(5)] + "?a=b&c=d"})
-			} else {
+			case 1:
 				out = append(out, &inl{k: iAutolink, s: "user@example.com"})
+			case 2:
+				// characters that are percent-encoded in the href and escaped in the text; a scheme
+				// is 2-32 characters; no backslash escapes and no entities inside an autolink
+				out = append(out, &inl{k: iAutolink, s: []string{"http://a.b/c\\d[e]", "a+b.c-d://x/\"q\"", "mailto:x@y.z", "ab:", "http://a.b/&amp;c", "a-scheme-that-is-32-characters-x:y", "https://é.example/ü?`x`", "irc://h/*not*_em_"}[g.r.Intn(8)]})
+				g.f("inline:autolink-variants")
+			default:
+				out = append(out, &inl{k: iAutolink, s: []string{"a.b-c_d+e@x-y.z9.w", "A!#$%&'*+/=?^_`{|}~-@b.c", "x@y", "1@2.3"}[g.r.Intn(4)]})
+				g.f("inline:autolink-variants")
 			}
 			g.f("inline:autolink")
 		case 14:
@@ -288,6 +297,15 @@ func (g *gen) inlineSeq(n int, depth int, inLink bool, lineBreaks bool) []*inl {
 // are unambiguously left- resp. right-flanking.
 func (g *gen) emphContent(depth int, inLink bool) []*inl {
 	out := []*inl{g.word()}
+	if !g.no("inline:emph-punct") && g.r.Intn(6) == 0 {
+		// Content that starts and ends with punctuation: the opening run is still
+		// left-flanking because white space or the start of the line precedes it, the
+		// closing run right-flanking because white space or the end of the line follows
+		// (tokens are separated by spaces; nothing is glued to an emphasis token).
+		out[0].s = []string{"\"a\"", "(a)", "'x'", "(a", "b)", "¡hola!", "“q”"}[g.r.Intn(7)]
+		g.f("inline:emph-punct")
+		return out
+	}
 	if g.r.Intn(3) == 0 {
 		sep := func() *inl {
 			if g.multiline() {
@@ -303,8 +321,23 @@ func (g *gen) emphContent(depth int, inLink bool) []*inl {
 	return out
 }
 
+// codeVariants: code spans whose delimiter is longer than one backtick or whose
+// content meets the stripping rule (one space is removed from each end when the
+// content both begins and ends with a space and is not all spaces). md is the
+// Markdown, s the content as rendered.
+var codeVariants = [][2]string{
+	{"`` a`b ``", "a`b"}, {"`` `x` ``", "`x`"}, {"``` `` ```", "``"}, {"``a``", "a"}, {"`a``b`", "a``b"},
+	{"`  a  `", " a "}, {"`  `", "  "}, {"` a`", " a"}, {"`a `", "a "}, {"`` ` ``", "`"}, {"``a`b``", "a`b"},
+	{"` `` `", "``"}, {"`\\`", "\\"}, {"``\\` ``", "\\` "},
+}
+
 func (g *gen) codeSpan() *inl {
 	g.f("inline:code")
+	if !g.no("inline:code-variants") && g.r.Intn(4) == 0 {
+		v := codeVariants[g.r.Intn(len(codeVariants))]
+		g.f("inline:code-variants")
+		return &inl{k: iCode, s: v[1], written: v[0]}
+	}
 	parts := []string{"x", "a*b*", "<b>", "&amp;", "\\", "[l](u)", "a  b", "\"q\"", "_u_", "f()"}
 	n := g.r.Range(1, 2)
 	var sb strings.Builder
@@ -740,6 +773,10 @@ func (g *gen) inlineMD(seq []*inl, sb *strings.Builder) {
 			g.inlineMD(in.kids, sb)
 			sb.WriteString(d)
 		case iCode:
+			if in.written != "" {
+				sb.WriteString(in.written)
+				break
+			}
 			sb.WriteString("`" + strings.ReplaceAll(in.s, "\n", "\n\x00") + "`")
 		case iLink, iImage:
 			if in.k == iImage {
@@ -870,14 +907,18 @@ func decodeRefs(s string) string {
 	return html.UnescapeString(s)
 }
 
+func isHexDigit(c byte) bool {
+	return c >= '0' && c <= '9' || c >= 'a' && c <= 'f' || c >= 'A' && c <= 'F'
+}
+
 func pctEncode(s string) string {
 	const keep = ";/?:@&=+$,-_.!~*'()#"
 	var sb strings.Builder
 	for i := 0; i < len(s); i++ {
 		c := s[i]
 		switch {
-		case c == '%' && i+2 < len(s):
-			sb.WriteByte(c)
+		case c == '%' && i+2 < len(s) && isHexDigit(s[i+1]) && isHexDigit(s[i+2]):
+			sb.WriteByte(c) // an existing escape is kept; a stray per cent sign becomes %25
 		case c < 0x80 && (c >= 'a' && c <= 'z' || c >= 'A' && c <= 'Z' || c >= '0' && c <= '9' || strings.IndexByte(keep, c) >= 0):
 			sb.WriteByte(c)
 		default:
@@ -930,8 +971,8 @@ func (g *gen) inlineHTML(seq []*inl, sb *strings.Builder) {
 			sb.WriteString(" alt=\"" + escText(alt.String()) + "\">")
 		case iAutolink:
 			href := pctEncode(in.s)
-			if strings.Contains(in.s, "@") {
-				href = "mailto:" + href
+			if !strings.Contains(in.s, ":") {
+				href = "mailto:" + href // an e-mail autolink
 			}
 			sb.WriteString("<a href=\"" + escText(href) + "\">" + escText(in.s) + "</a>")
 		case iRaw:
